@@ -203,7 +203,19 @@ func (f *FreeRun) Run(horizon time.Duration) (completed bool, err error) {
 				b := make([]byte, sz)
 				FillPayload(b, f.Cfg.StreamID[w], off)
 				offered[w].Add(int64(sz))
-				k, err := sess[w].Write(b)
+				var k int
+				var err error
+				if sizes := f.App[w].VecCuts(i, sz); sizes != nil {
+					v := make([][]byte, 0, len(sizes))
+					rest := b
+					for _, n := range sizes {
+						v = append(v, rest[:n:n])
+						rest = rest[n:]
+					}
+					k, err = sess[w].WriteBuffers(v)
+				} else {
+					k, err = sess[w].Write(b)
+				}
 				if err != nil {
 					select {
 					case <-stop: // closed at the horizon
